@@ -25,7 +25,7 @@ func VerifTxSeq(s *PfcpServer) uint32 { return s.txSeq }
 // VerifDump: canonical dump of the control-plane tables (call only while the loop is idle).
 //
 //	free=<ids in free-list order> slots=<n> sess=<S|S|...> nodes=<id>addr#n,...> rx=<keys> tx=<key/count,...> txseq=<hex>
-//	S = <up>;<cp>;<node id>;P=<id/u+u,...>;F=<ids>;Q=<ids>;U=<id/seqn/ref/removed/durat/volum/mnop,...>;B=<ids>;K=<pdr/len,...>
+//	S = <up>;<cp>;<node id>@<node addr>;P=<id/u+u,...>;F=<ids>;Q=<ids>;U=<id/seqn/ref/removed/durat/volum/mnop,...>;B=<ids>;K=<pdr/len,...>
 func VerifDump(s *PfcpServer) string {
 	dash := func(xs []string) string {
 		if len(xs) == 0 {
@@ -109,7 +109,7 @@ func VerifDump(s *PfcpServer) string {
 		}
 		nid := "?"
 		if x.rnode != nil {
-			nid = x.rnode.ID
+			nid = x.rnode.ID + "@" + x.rnode.addr.String()
 		}
 		sess = append(sess, fmt.Sprintf("%x;%x;%s;P=%s;F=%s;Q=%s;U=%s;B=%s;K=%s", x.LocalID, x.RemoteID, nid,
 			dash(pd), dash(fa), dash(qe), dash(ur), dash(ba), dash(qs)))
